@@ -29,18 +29,22 @@ INIT_FINISH = 9999
 _ENVS: Dict[tuple, object] = {}
 
 
-def make_env(jssp: bool, mask_no_ops: bool):
-    key = (jssp, mask_no_ops)
+def make_env(jssp: bool, mask_no_ops: bool, check_mask: bool = False, stepwise_reward: bool = False):
+    """`check_mask` (assert a non-empty mask row after every step) and `stepwise_reward` (per-step reward
+    from the lower bounds; `get_reward(td, actions)` still returns −makespan) are the remaining
+    constructor options of both environments; neither may change mask / done / time / schedule."""
+    key = (jssp, mask_no_ops, check_mask, stepwise_reward)
     if key not in _ENVS:
+        kw = dict(mask_no_ops=mask_no_ops, check_mask=check_mask, stepwise_reward=stepwise_reward)
         if jssp:
             from rl4co.envs.scheduling.jssp.env import JSSPEnv
 
-            _ENVS[key] = JSSPEnv(generator_params=dict(num_jobs=2, num_machines=2), mask_no_ops=mask_no_ops)
+            _ENVS[key] = JSSPEnv(generator_params=dict(num_jobs=2, num_machines=2), **kw)
         else:
             from rl4co.envs.scheduling.fjsp.env import FJSPEnv
 
             _ENVS[key] = FJSPEnv(generator_params=dict(num_jobs=2, num_machines=2, min_ops_per_job=1, max_ops_per_job=2),
-                                 mask_no_ops=mask_no_ops)
+                                 **kw)
     return _ENVS[key]
 
 
@@ -78,9 +82,18 @@ def gen_instance(rng, J: int, M: int, kind: str, jssp: bool, max_ops: int = 3) -
     """kinds: random (times 1..9, 1..M eligible machines), ties (all times from a 2-element set, so
     many machines / jobs finish simultaneously: `busy == time`, `finish == time` boundaries),
     unit (all times 1), long (one long op next to short ones: long idle stretches and many waits),
-    single (one op per job)."""
+    single (one op per job),
+    huge (durations around and beyond every constant of the code: `INIT_FINISH = 9999` is the
+    `finish_times` filler of unscheduled operations, `0` the filler of `start_times` / `busy_until`; the
+    schedule horizon crosses 9999 while operations are still unscheduled),
+    sentinel (completion / event times that hit 9999 exactly, and 9998 / 10000 next to it),
+    unbalanced (one job with many operations next to single-operation jobs, durations 1 next to 1000s,
+    possibly a machine that no operation can use)."""
     if kind == "single":
         nops = [1] * J
+    elif kind == "unbalanced":
+        nops = [2 * max_ops] + [1] * (J - 1)
+        rng.shuffle(nops)
     else:
         nops = [rng.randint(1, max_ops) for _ in range(J)]
     tot = sum(nops)
@@ -90,17 +103,26 @@ def gen_instance(rng, J: int, M: int, kind: str, jssp: bool, max_ops: int = 3) -
         pool = [1]
     elif kind == "long":
         pool = [1, 1, 2, 9, 17]
+    elif kind == "huge":
+        pool = [1, 2500, 4999, 5000, 7001, 10000, 12345, 20000]
+    elif kind == "sentinel":
+        pool = rng.choice([[9999], [9999, 1, 9998], [3333, 6666, 9999], [9998, 1, 10000], [5000, 4999, 1]])
+    elif kind == "unbalanced":
+        pool = [1, 1, 1, 1000, 3000]
     else:
         pool = list(range(1, 10))
     proc = [[0] * tot for _ in range(M)]
+    usable = list(range(M))
+    if kind == "unbalanced" and M > 1 and rng.random() < 0.5:
+        usable = rng.sample(range(M), M - 1)  # one machine that no operation can use
     for o in range(tot):
-        k = 1 if jssp else rng.randint(1, M)
-        for m in rng.sample(range(M), k):
+        k = 1 if jssp else rng.randint(1, len(usable))
+        for m in rng.sample(usable, k):
             proc[m][o] = rng.choice(pool)
     return {"kind": kind, "J": J, "M": M, "nops": nops, "proc": proc}
 
 
-KINDS = ["random", "ties", "unit", "long", "single"]
+KINDS = ["random", "ties", "unit", "long", "single", "huge", "sentinel", "unbalanced"]
 
 
 def wf(inst: dict, jssp: bool) -> bool:
@@ -190,23 +212,26 @@ def source_td(insts: List[dict]) -> Optional[TensorDict]:
 def generator_instances(rng, jssp: bool, B: int) -> List[dict]:
     """instances produced by the repo's own generator (seeded from the harness PRNG)"""
     torch.manual_seed(rng.randrange(1 << 30))
+    # legal non-default generator settings: processing times in the thousands (horizon beyond INIT_FINISH)
+    big = rng.random() < 0.35
+    lo, hi = (2000, 12000) if big else (1, 9)
     if jssp:
         from rl4co.envs.scheduling.jssp.generator import JSSPGenerator
 
         if rng.random() < 0.5:
             m = rng.choice([2, 3])
-            g = JSSPGenerator(num_jobs=rng.choice([2, 3, 4]), num_machines=m, max_processing_time=9)
+            g = JSSPGenerator(num_jobs=rng.choice([2, 3, 4]), num_machines=m, min_processing_time=lo, max_processing_time=hi)
         else:
             g = JSSPGenerator(num_jobs=rng.choice([2, 3]), num_machines=rng.choice([2, 3]), min_ops_per_job=1,
-                              max_ops_per_job=3, max_processing_time=9, one2one_ma_map=False)
+                              max_ops_per_job=3, min_processing_time=lo, max_processing_time=hi, one2one_ma_map=False)
     else:
         from rl4co.envs.scheduling.fjsp.generator import FJSPGenerator
 
         g = FJSPGenerator(num_jobs=rng.choice([2, 3, 4]), num_machines=rng.choice([2, 3]), min_ops_per_job=1,
-                          max_ops_per_job=3, min_processing_time=1, max_processing_time=9,
+                          max_ops_per_job=3, min_processing_time=lo, max_processing_time=hi,
                           same_mean_per_op=rng.random() < 0.5)
     td = g(batch_size=[B])
-    insts = from_td(td, "generator")
+    insts = from_td(td, "generator-big" if big else "generator")
     remember_source(insts, td)
     return insts
 
@@ -408,8 +433,12 @@ def chooser(rng, style: str):
     return ch
 
 
-def real_reward(env, td) -> List[int]:
-    r = env.get_reward(td, None)
+def real_reward(env, td, actions: Optional[List[List[int]]] = None) -> List[int]:
+    """`env.get_reward(td, actions)` as the policies call it (with the executed actions)"""
+    B = td.batch_size[0]
+    acts = torch.tensor(actions, dtype=torch.long) if actions is not None and len({len(a) for a in actions}) == 1 \
+        else torch.zeros((B, 1), dtype=torch.long)
+    r = env.get_reward(td, acts)
     return [exact_int(v) for v in r.flatten().tolist()]
 
 
@@ -537,7 +566,7 @@ def bfs_real(env, inst: dict, max_states: int = 60000):
                     fi = [exact_int(v) for v in out["finish_times"][r].tolist()]
                     asg = [int(v) for v in out["ma_assignment"][r].flatten().tolist()]
                     key = sched_key(inst, st, fi, asg, N)
-                    rew = exact_int(float(env.get_reward(out[r:r + 1], None)[0]))
+                    rew = exact_int(float(env.get_reward(out[r:r + 1], torch.zeros((1, 1), dtype=torch.long))[0]))
                     if key not in finals:
                         finals[key] = paths[k + r]
                     best = rew if best is None else max(best, rew)
